@@ -237,6 +237,20 @@ fn ends_with_bare_member_access(expression: &expr::E<()>) -> bool {
   }
 }
 
+/// `a * ((b % c) * d)` is not `a * b % c * d`: without its parentheses a product may only join the
+/// product on its left when no `/` or `%` sits on its own left spine.
+fn starts_with_pure_product(e: &expr::E<()>) -> bool {
+  match e {
+    expr::E::Binary(b) if b.operator == expr::BinaryOperator::MUL => {
+      starts_with_pure_product(&b.e1)
+    }
+    expr::E::Binary(b) => {
+      !matches!(b.operator, expr::BinaryOperator::DIV | expr::BinaryOperator::MOD)
+    }
+    _ => true,
+  }
+}
+
 fn create_doc_for_subexpression_considering_precedence_level(
   heap: &Heap,
   comment_store: &CommentStore,
@@ -702,6 +716,7 @@ fn create_doc_without_preceding_comment(
       }
       if let expr::E::Binary(e2) = e.e2.as_ref()
         && e2.operator == e.operator
+        && (e.operator != expr::BinaryOperator::MUL || starts_with_pure_product(&e2.e1))
       {
         // For a chain of the same associative operator, we can remove parentheses.
         // A right operand with a different operator of the same level must keep them:
